@@ -5,14 +5,27 @@
    second time; functions only on server/special features, first registration wins; the
    description), the device's member list, the feature ids it saw handed out, the
    subscription entries on node management (plain data, taken from the observed results
-   of the subscription calls) and the GetOrAddFeature calls parked at the hook.
+   of the subscription calls), the GetOrAddFeature calls parked at the hook and, for every
+   discovery read that has begun and not yet returned, the member list at its beginning.
    Feature ids are taken from the observations, never predicted.  Clauses:
      REPLY    the reply to a detailed-discovery read is not exactly render(current tree):
               member entities in order with their type; for each its features with id,
               type, role, description and per function read / write (+ partial); functions
-              as a sorted set; nothing else on any connection
+              as a sorted set; nothing else on any connection.
+              A read that overlaps other calls (ReadBegin t p ... ReadEnd t): the property's
+              "at every moment" is read, for a call that takes time, as "at some moment
+              between its call and its return" -- here the moment of its ReadBegin: the
+              reply must list exactly the entities that were members THEN, in that order
+              (not one more, not one less, whatever was added or removed since), each
+              described as the entity object is when the reply is built (type, features,
+              functions: these objects are live and every change to them happened before
+              the reply was sent); a read that produces no reply at all (ReadPanicked)
+              or anything else on any connection violates REPLY
      RESOLVE  an announced feature address does not resolve (FeatureByAddress) to a
-              feature with that address, type and role
+              feature with that address, type and role.  In the reply of an overlapped read
+              this is demanded of the entities that are members when the reply is sent; the
+              features of an entity removed during the read were announced for the moment
+              of ReadBegin and their resolution now is not judged
      NOTIFY   AddEntity / RemoveEntity did not send exactly one partial notification per
               subscription entry on node management, addressed to that entry's client
               feature, describing the entity as added (with its features) or removed
@@ -36,11 +49,12 @@ Record mst := {
   m_ids : list (N * N);                (* every (entity, feature id) seen handed out *)
   m_members : list N;
   m_subs : list (N * N);
-  m_thr : list (N * (N * N * N))
+  m_thr : list (N * (N * N * N));
+  m_rds : list (N * (N * list N))      (* reads begun and not returned: thread -> (peer, the members at ReadBegin) *)
 }.
 
 Definition minit : mst :=
-  {| m_objs := objs init; m_ids := [(0, 0); (0, 1)]%N; m_members := [0%N]; m_subs := []; m_thr := [] |}.
+  {| m_objs := objs init; m_ids := [(0, 0); (0, 1)]%N; m_members := [0%N]; m_subs := []; m_thr := []; m_rds := [] |}.
 
 Definition mfeats (m : mst) (e : N) : list feat :=
   match assoc_N e (m_objs m) with Some o => e_feats o | None => [] end.
@@ -54,9 +68,12 @@ Definition handed (e id : N) (l : list (N * N)) : bool :=
 Definition exp_feats (m : mst) (e : N) : list obs :=
   flat_map (fun f => render_feat e f (Some f)) (mfeats m e).
 
-Definition exp_reply (m : mst) (p : N) : list obs :=
-  RBegin p true :: map (fun e => REnt e (mtype m e) 0) (m_members m) ++
-  flat_map (exp_feats m) (m_members m) ++ [REnd].
+(* the reply listing exactly the entities [l], each as it is now *)
+Definition exp_reply_of (m : mst) (p : N) (l : list N) : list obs :=
+  RBegin p true :: map (fun e => REnt e (mtype m e) 0) l ++
+  flat_map (exp_feats m) l ++ [REnd].
+
+Definition exp_reply (m : mst) (p : N) : list obs := exp_reply_of m p (m_members m).
 
 Definition exp_notifs (m : mst) (e lsc : N) (with_feats : bool) : list obs :=
   flat_map (fun pc : N * N =>
@@ -76,8 +93,20 @@ Definition judge_announce (cl : Z) (out expected : list obs) : verdict :=
   (if same (map self_res out) expected then [] else [cl]) ++
   (if same (map self_res out) out then [] else [CL_RESOLVE]).
 
+(* the announcement with the resolution columns of the current members' features replaced by "itself" *)
+Definition member_res (mem : list N) (o : obs) : obs :=
+  match o with
+  | RFeat e id ty role d _ _ _ => if memN e mem then RFeat e id ty role d id ty role else o
+  | x => x
+  end.
+
+(* the reply of an overlapped read: content against [expected], resolution for the current members *)
+Definition judge_reply (mem : list N) (out expected : list obs) : verdict :=
+  (if same (map self_res out) expected then [] else [CL_REPLY]) ++
+  (if same (map (member_res mem) out) out then [] else [CL_RESOLVE]).
+
 Definition set_mobjs (m : mst) (o : list (N * eobj)) (ids : list (N * N)) : mst :=
-  {| m_objs := o; m_ids := ids; m_members := m_members m; m_subs := m_subs m; m_thr := m_thr m |}.
+  {| m_objs := o; m_ids := ids; m_members := m_members m; m_subs := m_subs m; m_thr := m_thr m; m_rds := m_rds m |}.
 
 Definition fresh (m : mst) (e id : N) : verdict := if handed e id (m_ids m) then [CL_FRESH] else [].
 
@@ -112,7 +141,7 @@ Definition mon (m : mst) (o : op) (out : list obs) : mst * verdict :=
       | Some _ =>
           if memN (Npos e) (m_members m) then expect m out AlreadyMember
           else let m1 := {| m_objs := m_objs m; m_ids := m_ids m; m_members := m_members m ++ [Npos e];
-                            m_subs := m_subs m; m_thr := m_thr m |} in
+                            m_subs := m_subs m; m_thr := m_thr m; m_rds := m_rds m |} in
                (m1, judge_announce CL_NOTIFY out (exp_notifs m1 (Npos e) 1 true))
       end
   | RemoveEntity e =>
@@ -121,7 +150,7 @@ Definition mon (m : mst) (o : op) (out : list obs) : mst * verdict :=
       | Some _ =>
           let m1 := {| m_objs := m_objs m; m_ids := m_ids m;
                        m_members := filter (fun x => negb (N.eqb x (Npos e))) (m_members m);
-                       m_subs := m_subs m; m_thr := m_thr m |} in
+                       m_subs := m_subs m; m_thr := m_thr m; m_rds := m_rds m |} in
           (m1, judge_announce CL_NOTIFY out (exp_notifs m1 (Npos e) 2 false))
       end
   | AddFeature e ty role desc fns =>
@@ -176,7 +205,7 @@ Definition mon (m : mst) (o : op) (out : list obs) : mst * verdict :=
               match out with
               | [Miss] =>
                   ({| m_objs := m_objs m; m_ids := m_ids m; m_members := m_members m; m_subs := m_subs m;
-                      m_thr := (t, (e, ty, role)) :: m_thr m |}, [])
+                      m_thr := (t, (e, ty, role)) :: m_thr m; m_rds := m_rds m |}, [])
               | [GRet id false] => judge_get m e ty role id false
               | _ => (m, [CL_SHAPE])
               end
@@ -189,7 +218,7 @@ Definition mon (m : mst) (o : op) (out : list obs) : mst * verdict :=
           match out with
           | [GRet id new] =>
               judge_get {| m_objs := m_objs m; m_ids := m_ids m; m_members := m_members m; m_subs := m_subs m;
-                           m_thr := remove_N t (m_thr m) |} e ty role id new
+                           m_thr := remove_N t (m_thr m); m_rds := m_rds m |} e ty role id new
           | _ => (m, [CL_SHAPE])
           end
       end
@@ -198,7 +227,7 @@ Definition mon (m : mst) (o : op) (out : list obs) : mst * verdict :=
       | [SubRes ok] =>
           ({| m_objs := m_objs m; m_ids := m_ids m; m_members := m_members m;
               m_subs := if ok && negb (sub_mem (p, c) (m_subs m)) then sub_ins (p, c) (m_subs m) else m_subs m;
-              m_thr := m_thr m |}, [])
+              m_thr := m_thr m; m_rds := m_rds m |}, [])
       | _ => (m, [CL_SHAPE])
       end
   | Unsubscribe p c =>
@@ -206,10 +235,25 @@ Definition mon (m : mst) (o : op) (out : list obs) : mst * verdict :=
       | [SubRes ok] =>
           ({| m_objs := m_objs m; m_ids := m_ids m; m_members := m_members m;
               m_subs := if ok then sub_del (p, c) (m_subs m) else m_subs m;
-              m_thr := m_thr m |}, [])
+              m_thr := m_thr m; m_rds := m_rds m |}, [])
       | _ => (m, [CL_SHAPE])
       end
   | Read p => (m, judge_announce CL_REPLY out (exp_reply m p))
+  | ReadBegin t p =>
+      match assoc_N t (m_rds m) with
+      | Some _ => expect m out BusyT
+      | None =>
+          expect {| m_objs := m_objs m; m_ids := m_ids m; m_members := m_members m; m_subs := m_subs m;
+                    m_thr := m_thr m; m_rds := (t, (p, m_members m)) :: m_rds m |} out Parked
+      end
+  | ReadEnd t =>
+      match assoc_N t (m_rds m) with
+      | None => expect m out NoThread
+      | Some (p, l) =>
+          let m1 := {| m_objs := m_objs m; m_ids := m_ids m; m_members := m_members m; m_subs := m_subs m;
+                       m_thr := m_thr m; m_rds := remove_N t (m_rds m) |} in
+          (m1, judge_reply (m_members m1) out (exp_reply_of m1 p l))
+      end
   end.
 
 (* nothing is excused: no recorded finding for C07 *)
